@@ -35,7 +35,7 @@ Theorem C12_exact_vector_dominates_source : forall f d, (forall a b, a <= b -> f
   forall delta, f delta <= curve_na d delta.
 Proof. exact exact_dmin_dominates. Qed.
 Theorem C12_exact_vector_exact_on_prefix : forall f d, (forall a b, a <= b -> f a <= f b) -> f 0 = 0 ->
-  (forall x, 0 < x -> 1 <= f x) -> f 1 = 1 -> wf_dmin d -> ~ plateau_end d -> exact_dmin_of f d ->
+  (forall x, 0 < x -> 1 <= f x) -> f 1 = 1 -> wf_dmin d -> exact_dmin_of f d ->
   forall delta, delta <= lastN d -> curve_na d delta = f delta.
 Proof. exact exact_dmin_exact_on_prefix. Qed.
 (* the conversions produce exact vectors *)
@@ -48,8 +48,22 @@ Proof. exact curve_from_ab_exact. Qed.
 Theorem C12_from_periodic : forall T, 1 <= T -> forall delta, na (Periodic T) delta <= curve_na (curve_of_periodic T) delta /\
   (delta <= T -> curve_na (curve_of_periodic T) delta = na (Periodic T) delta).
 Proof. exact curve_of_periodic_exact. Qed.
-(* known finding C12-plateau-at-last: exactness at delta = last entry fails for plateau-ended vectors *)
-Definition C12_plateau_at_last_refuted := exact_plateau_refuted.
+(* the conversions are exact up to AND INCLUDING the largest recorded distance *)
+Theorem C12_from_arrival_bound_until_exact_upto_last : forall ab hz, wf_ab ab -> steps_exact_class ab ->
+  (forall x, 0 < x -> 1 <= na ab x) ->
+  forall delta, delta <= lastN (curve_from_ab_until ab hz) -> curve_na (curve_from_ab_until ab hz) delta = na ab delta.
+Proof. exact curve_from_ab_until_exact_upto_last. Qed.
+Theorem C12_from_arrival_bound_exact_upto_last : forall ab n, wf_ab ab -> steps_exact_class ab ->
+  (forall x, 0 < x -> 1 <= na ab x) ->
+  forall delta, delta <= lastN (curve_from_ab ab n) -> curve_na (curve_from_ab ab n) delta = na ab delta.
+Proof. exact curve_from_ab_exact_upto_last. Qed.
+(* regression for the repaired finding C12-plateau-at-last (exactness at delta = last entry failed for plateau-ended
+   vectors): the former witness is exact on its whole prefix *)
+Theorem C12_plateau_at_last_repaired :
+  let ab := SumAB [Periodic 3; Sporadic 4 2] in let d := [0; 2; 3; 6; 6] in
+  wf_ab ab /\ wf_dmin d /\ plateau_end d /\ exact_dmin_of (na ab) d /\
+  curve_na d (lastN d) = na ab (lastN d) /\ forall delta, delta <= lastN d -> curve_na d delta = na ab delta.
+Proof. exact exact_plateau_repaired. Qed.
 (* repaired finding C12-zero-last (from_arrival_bound): the conversions keep going until a non-zero distance is
    included.  Whenever the horizon-doubling loop of the model finds a cut of the delta-min iterator inside which the
    take_while stops ([njobs_enough] / [until_enough], j-th doubling), the result is a well-formed delta-min vector
